@@ -394,6 +394,14 @@ def cases(tier, rng):
         for iface in (0, 1):
             for b in batches(tp):
                 yield "targeted", req(kind, iface, 0, "abs", b)
+    # (b') the same apps with handle_404 configured (iface 2 / 3): the not-found path hands the request to it,
+    # every other path leaves it alone
+    for kind in (0, 1):
+        for iface in (2, 3):
+            for b in batches(tp + paths_over(ALPHA, 2)):
+                yield "handle-404", req(kind, iface, 0, "abs", b)
+            for b in batches(paths_over(ALPHA, 2)):
+                yield "handle-404", req(kind, iface, 0, "ghost", b)
     # (c) other spellings of the directory, other layouts
     ex2 = paths_over(ALPHA, 2)
     for dm in ("abs-slash", "abs-dots", "rel-dot", "rel-empty", "rel-name", "rel-dots", "pkg-dots", "pkg-up", "ghost", "sub",
@@ -469,7 +477,7 @@ def ENCODE(case):
         spec = importlib.util.find_spec(pkg)
         origin = [spec.origin]
     nodes = [[os.fsdecode(rel), k, i] for rel, k, i in L.nodes]
-    return core.enc_line(["req", kind, iface, _BASE, cwd, directory, origin, [gateway_text(iface, p) for p in paths], nodes])
+    return core.enc_line(["req", kind, iface % 2, _BASE, cwd, directory, origin, [gateway_text(iface % 2, p) for p in paths], nodes])
 
 
 # ------------------------------------------------------------------ implementation driver
@@ -512,9 +520,30 @@ def canon(p):
     return p[len(pre):] if p.startswith(pre) else p
 
 
+class Fallback:
+    """handle_404: an application of the app's interface that records how it was called and answers 404 itself"""
+
+    def __init__(self, iface):
+        self.calls = []
+        if iface == 0:
+            def app(environ, start_response):
+                self.calls.append(environ)
+                start_response("404 Not Found", [("x-fallback", "1")])
+                return [b"fallback"]
+        else:
+            async def app(scope, receive, send):
+                self.calls.append(scope)
+                await send({"type": "http.response.start", "status": 404, "headers": [(b"x-fallback", b"1")]})
+                await send({"type": "http.response.body", "body": b"fallback"})
+        self.app = app
+
+
 def one_call(app, iface, url_path):
     """-> (outcome, sorted distinct canonical accessed paths)"""
     from baize.exceptions import HTTPException
+    fb = getattr(app, "_c07_fallback", None)
+    if fb is not None:
+        del fb.calls[:]
     raw = gateway_text(iface, url_path)
     rec = []
     _REC[0] = rec
@@ -537,6 +566,15 @@ def one_call(app, iface, url_path):
         _REC[0] = None
     acc = sorted({canon(p) for _, p in rec if isinstance(p, (str, bytes))})
     opened = [canon(p) for kind, p in rec if kind == "open" and isinstance(p, (str, bytes))]
+    if fb is not None:
+        # with handle_404 configured the not-found path is: hand the very request to that application, once, and
+        # return what it answers; every other path must leave it alone
+        if exc is not None and isinstance(exc, HTTPException) and exc.status_code == 404:
+            return ["404-raised-although-handle_404-is-set"], acc
+        if fb.calls:
+            if len(fb.calls) == 1 and status == 404 and headers.get("x-fallback") == "1" and body == b"fallback" and exc is None:
+                return ["404"], acc
+            return ["handle_404-misused", len(fb.calls), status if status is not None else -1], acc
     if exc is not None:
         if isinstance(exc, HTTPException) and exc.status_code == 404 and status is None:
             return ["404"], acc
@@ -565,6 +603,7 @@ def impl(case):
     if case[0] == "path":
         return impl_path(case)
     _, kind, iface, li, dm, paths = case
+    with_fallback, iface = iface >= 2, iface % 2     # iface 2 / 3: WSGI / ASGI with handle_404 configured
     L = _LAYOUTS[li]
     cwd, directory, pkg = L.dmode(dm, _BASE)
     os.chdir(cwd)
@@ -573,10 +612,14 @@ def impl(case):
     else:
         from baize.asgi import Files, Pages
     cls = Pages if kind else Files
+    fb = Fallback(iface) if with_fallback else None
+    kw = {"handle_404": fb.app} if fb else {}
     try:
-        app = cls(directory, pkg) if pkg is not None else cls(directory)
+        app = cls(directory, pkg, **kw) if pkg is not None else cls(directory, **kw)
     except AssertionError:
         return [[]]
+    if fb:
+        app._c07_fallback = fb
     out = [[canon(app.directory)]]
     for p in paths:
         o, acc = one_call(app, iface, p)
@@ -720,6 +763,7 @@ def oracle(case, obs):
     if obs and obs[0] == "driver-exception":
         return ("driver-exception-" + obs[1], str(obs[2:]))
     _, kind, iface, li, dm, paths = case
+    iface = iface % 2
     L = layouts()[li]
     d = L.expected_dir(dm)
     if d is None:
